@@ -34,9 +34,12 @@ notes = {'C02': 'own transcription of the table names / formats added (one of th
          'C12': 'points level with vertices on nearly level sides; interior points with far-away guesses',
          'C06': 'short-table row selections',
          'C05': 'result times also reached through last / negative indices / next / prev / time / step before comparing with the text (round 2)',
-         'C10': 'primitive followed directly by check(fix=True) without the harness refreshing in between (round 2)',
+         'C10': 'primitive followed directly by check(fix=True) without the harness refreshing in between (round 2); bulk renames that leave a name unchanged and renames onto the same name (round 3)',
          'C14': 'exact end points of the temperature and pressure ranges; own region definition tests the range in degC (round 2)',
-         'C19': 'derived geometries (surfaces, then layer / column refinement) as the SOURCE of a mapping (round 2)'}
+         'C19': 'derived geometries (surfaces, then layer / column refinement) as the SOURCE of a mapping (round 2); transfer_from() also called with its default mapping arguments and compared with the explicit call (round 3)',
+         'C04': 'atmosphere type changed on the finished geometry through the property setter (round 3)',
+         'C13': 'the object must be the same after write(); the same object written again with the other reset value in between (round 3)',
+         'C15': 'second separator pressure above as well as below the first (round 3)'}
 rebased = []
 rows = []
 for s in sorted(os.listdir(os.path.join(V, 'seeded'))):
@@ -49,10 +52,12 @@ for s in sorted(os.listdir(os.path.join(V, 'seeded'))):
     keys = ', '.join('`%s`' % k for k in (r[1][:2] if r else []))
     rows.append('| %s | %s | %s %s | %s |' % (s, summ, r[0] if r else 'NOT RUN', keys, notes.get(prop, '')))
 out += ['', '### 8.4 Seeded changes (independent sub-agents) and which checks catch them', '',
-        '%d changes were written by fresh sub-agents (two rounds: <id>-1, <id>-2 early on, <id>-3 after all checks existed) that' % len(rows),
-        'were given only the text of one property and a scratch git worktree of /repo (nothing from /verif).  Four of the twenty',
-        'round-2 changes (C05-3, C10-3, C14-3, C19-3) escaped the checks as they were; the checks were strengthened (last',
-        'column) and now catch them.  Each change was confirmed (`tools/ingest_seed.py`: applies, the 37 pinned tests',
+        '%d changes were written by fresh sub-agents (three rounds: <id>-1, <id>-2 early on; <id>-3 after all checks existed;' % len(rows),
+        '<id>-4 with the instruction to aim at interactions, carried state and boundary values) that were given only the text of',
+        'one property and a scratch git worktree of /repo (nothing from /verif).  Four of the twenty round-2 changes (C05-3,',
+        'C10-3, C14-3, C19-3) and five of the twenty round-3 changes (C04-4, C10-4, C13-4, C15-4, C19-4) escaped the checks as',
+        'they were; each miss was a configuration the generators did not produce, the generators were widened (last column),',
+        'and all eighty changes are now caught by the quick tier.  Each change was confirmed (`tools/ingest_seed.py`: applies, the 37 pinned tests',
         'still pass, the agent\'s demonstration fails with the change and passes without) and is kept under',
         '`/verif/seeded/<id>-<n>/` (patch.diff, demo.py, meta.json).  %d patches (%s) had to be re-expressed by hand' % (len(rebased), ', '.join(rebased)),
         'after `fix:` commits touched the same lines (meta.json `rebased`).  The table is the last full run of',
